@@ -516,7 +516,14 @@ namespace ip {
 				p.overhead = 40;
 				p.hops = hops;
 				p.seq_nr = m_next_outgoing_seq++;
-				p.drop_fun = std::bind(&tcp::socket::packet_dropped, this, _1);
+				// the notification reaches the socket through its forwarder, so that
+				// it vanishes once the socket is closed or destroyed and follows the
+				// socket when it is moved
+				std::shared_ptr<aux::sink_forwarder> fwd = m_forwarder;
+				p.drop_fun = [fwd](aux::packet pkt) {
+					if (auto* s = static_cast<tcp::socket*>(fwd->dst()))
+						s->packet_dropped(std::move(pkt));
+				};
 
 				send_packet(std::move(p));
 				ptr += packet_size;
@@ -756,6 +763,8 @@ namespace ip {
 
 	void tcp::socket::packet_dropped(aux::packet p)
 	{
+		// the connection may be gone already (end-of-file was read)
+		if (!m_channel) return;
 		int remote = m_channel->remote_idx(m_bound_to);
 		p.hops = m_channel->hops[remote];
 		m_outgoing_packets.push_back(std::move(p));
